@@ -6,6 +6,7 @@ set -euo pipefail
 VERIF="$(cd "$(dirname "$0")" && pwd)"
 REPO="${UEC_REPO:-/repo}"
 FACTS="$1"; shift
+mkdir -p "$FACTS"; FACTS="$(cd "$FACTS" && pwd)"
 PROFILE=""; COLD=0
 for a in "$@"; do
   case "$a" in
